@@ -3,3 +3,4 @@
 @include u2_vfile.vs
 @include prelude_rec.rs
 @include u4_val.vs
+@include u6_htx.vs
